@@ -138,3 +138,26 @@ REG.contracts.append(_c08.c_add_history.contract)
 # the distribution advances with the rate AFTER the model's flux-limiting correction (solver side of the same step)
 from . import c06 as _c06
 REG.contracts.append(_c06.c_updatex.contract)
+
+
+@REG.contract('setPBMParameters/one-distribution-per-phase', [KE + ':PrecipitateModel.setPBMParameters', KE + ':PrecipitateModel.setPSDrecording'],
+              configs=[dict(name='all-phases', phase=None), dict(name="'all'", phase='all'), dict(name='one-phase', phase=1)])
+def c_pbm_params(ctx, it, cfg):
+    """every phase owns its size distribution: configuring the size classes of all phases at once must not make two phases share one object"""
+    P = 3
+    m, pd, n = mk_kwn(ctx, it, P, 1)
+    old = list(m.fields['PBM'])
+    cMin = real(ctx, 'cMin', lambda v: v > 0)
+    cMax = real(ctx, 'cMax')
+    ctx.assume(cMax > cMin)
+    bins = integer(ctx, 'newbins', lambda v: v >= 1)
+    ph = cfg['phase'] if not isinstance(cfg['phase'], int) else PHASES[cfg['phase']]
+    m.setPBMParameters(cMin, cMax, bins, 1, 1000, True, ph)
+    new = m.fields['PBM']
+    touched = range(P) if cfg['phase'] in (None, 'all') else [cfg['phase']]
+    ctx.prove('still-one-distribution-per-phase', len(new) == P and all(new[p] is not new[q] for p in range(P) for q in range(p)))
+    for p in range(P):
+        if p in touched:
+            ctx.prove('phase%d/new-grid-as-requested' % p, and_(new[p] is not old[p], eq(new[p].min, cMin), eq(new[p].bins, bins)))
+        else:
+            ctx.prove('phase%d/left-alone' % p, new[p] is old[p])
